@@ -260,3 +260,23 @@ Definition run_data_query {DB : Type} (exec : DB -> bytes -> DB * sql_result)
       end
   | e => (db, c, RSan e)
   end.
+
+(** Mutant (regression lemma only): the deferred reset is registered after the
+    QueryContext error check, so a statement SQLite refuses to compile hands the
+    connection back with query_only still on. *)
+Definition run_data_query_late_reset {DB : Type} (exec : DB -> bytes -> DB * sql_result)
+           (cell_cap row_cap byte_cap : N) (db : DB) (c : conn_state) (reset_ok : bool)
+           (query : bytes) : DB * conn_state * qres :=
+  match sanitize query row_cap with
+  | SOk safe =>
+      let '(db', r) := exec db safe in
+      match r with
+      | QErr => (db', mk_conn true, RQueryFailed)
+      | QRows cols rows te =>
+          match format_rows cell_cap row_cap byte_cap cols rows te with
+          | Some o => (db', mk_conn (negb reset_ok), ROut o)
+          | None => (db', mk_conn (negb reset_ok), RStreamErr)
+          end
+      end
+  | e => (db, c, RSan e)
+  end.
